@@ -82,7 +82,7 @@ def post_do_call(run, snap, res, args, kwargs):
                     r = CN.ref_copies(cls, ploidy, p["male_ref"])
                     if r > 0:
                         want = math.log2(max(n, 0.001 * ploidy) / r)
-                        if abs(out_log2[i] - want) > 1e-6:
+                        if abs(out_log2[i] - want) > (run.case or {}).get("log2_tol", 1e-6):
                             return run.violate(mon, f"clonal-purity-log2-{cls}", f"row {i} {chrom}: rewritten log2 {out_log2[i]} != log2(max(n,.001*ploidy)/r) = {want} (n={n}, r={r})", wit)
             else:
                 if lg is None:
